@@ -126,13 +126,18 @@ Sieve::iterator::~iterator()
 unsigned Sieve::iterator::next_prime()
 {
     std::vector<unsigned> &_primes = sieve_primes();
-    if (_index >= _primes.size()) {
-        unsigned extend_to = _primes[_index - 1] * 2;
+    // The shared cache may have been cleared (by another iterator's
+    // destructor, Sieve::clear() or generate_primes()) since the last call,
+    // so it can be shorter than _index: only _primes.back() is safe to read.
+    while (_index >= _primes.size()) {
+        const size_t old_size = _primes.size();
+        unsigned extend_to = _primes.back() * 2;
         if (_limit > 0 and _limit < extend_to) {
             extend_to = _limit;
         }
         _extend(extend_to);
-        if (_index >= _primes.size()) { // the next prime is greater than _limit
+        if (_primes.size() == old_size) {
+            // the next prime is greater than _limit
             return _limit + 1;
         }
     }
